@@ -28,7 +28,7 @@ INDEPENDENT = ("copy", "full_like", "bin", "un", "cast", "get", "cumsum")
 # (stock_helper.stock_stack is not called: on the pinned tree it always raises a ValidationError, because it builds the stacked
 #  stock without dims; it is not exported from the package and no listed property speaks about it)
 API_CALLS = ("neutral_arithmetic", "to_df", "from_df", "set_values_from_df", "stack", "split", "stock_from_arrays", "lifetime_prms",
-             "to_stock_type", "sum_values", "items_where", "from_dims_superset", "system_export")
+             "to_stock_type", "sum_values", "items_where", "from_dims_superset", "system_export", "assign_between_types")
 
 
 def generate(tier, rng):
@@ -293,6 +293,24 @@ def run_api(case):
                 shutil.rmtree(tmp, ignore_errors=True)
             return mfa
         outputs_of = lambda res: []
+    elif call == "assign_between_types":
+        # an accumulator that holds whole numbers in an integer (or single-precision) array takes over a float array over the same
+        # dimensions (same order or permuted), is then written into: the source stays what it was, whatever the accumulator's type
+        src = arr(ds if case["seed"] % 2 else fd.DimensionSet(dim_list=[g, t]))
+        kind = ["int64", "float32", "int32", "float64"][case["seed"] % 4]
+        acc = fd.FlodymArray(dims=ds, values=np.zeros(ds.shape, dtype=kind))
+        inputs = [src]
+
+        def f():
+            if case["seed"] % 3 == 0:
+                acc.__setitem__(..., src)
+            else:
+                acc[...] = src
+            acc.values[...] = 0
+            acc[{"g": "car"}] = 5
+            return acc
+        outputs_of = lambda res: [res]
+        independent = True
     elif call == "items_where":
         a = arr(ds)
         inputs = [a]
